@@ -6,6 +6,7 @@ package httpserver
 
 import (
 	"fmt"
+	"io"
 	"net"
 	"net/http"
 	"net/http/httptest"
@@ -70,10 +71,15 @@ type vfReq struct {
 	Path    string
 	Headers [][2]string // in order; keys canonical
 	Remote  string      // RemoteAddr "ip:port"
+	BodyLen int         // request body of that many bytes (declared Content-Length)
 }
 
 func (r vfReq) String() string {
-	return fmt.Sprintf("%s host=%q path=%q hdr=%v remote=%s", r.Method, r.Host, r.Path, r.Headers, r.Remote)
+	b := ""
+	if r.BodyLen > 0 {
+		b = fmt.Sprintf(" body=%dB", r.BodyLen)
+	}
+	return fmt.Sprintf("%s host=%q path=%q hdr=%v remote=%s%s", r.Method, r.Host, r.Path, r.Headers, r.Remote, b)
 }
 
 func vfQ(s string) string { return strconv.Quote(s) }
@@ -208,6 +214,7 @@ type vfGenOpts struct {
 	IPFilters bool     // generate ip filters at the three levels
 	IPPool    []string // allow/block entries to draw from
 	Bias12    bool     // bias towards the shapes C12 names
+	BodyLimit bool     // generate clientMaxBodySize at path and server level
 }
 
 func vfSubset(t *rapid.T, pool []string, label string, maxN int) []string {
@@ -299,6 +306,9 @@ func vfGenPath(t *rapid.T, label string, o vfGenOpts) vfPath {
 	if o.IPFilters && rapid.IntRange(0, 2).Draw(t, label+".hasipf") == 0 {
 		p.IPF = vfGenIPF(t, label+".ipf", o.IPPool)
 	}
+	if o.BodyLimit {
+		p.MaxBody = rapid.SampledFrom([]int64{0, 0, 10, -1, 1000}).Draw(t, label+".maxbody")
+	}
 	return p
 }
 
@@ -338,6 +348,9 @@ func vfGenServer(t *rapid.T, o vfGenOpts) vfServer {
 	}
 	if o.IPFilters && rapid.IntRange(0, 2).Draw(t, "srv.hasipf") == 0 {
 		s.IPF = vfGenIPF(t, "srv.ipf", o.IPPool)
+	}
+	if o.BodyLimit {
+		s.MaxBody = rapid.SampledFrom([]int64{0, 0, 10, 1000}).Draw(t, "srv.maxbody")
 	}
 	return s
 }
@@ -679,11 +692,16 @@ func (r vfReq) std() *http.Request {
 	for _, kv := range r.Headers {
 		h[http.CanonicalHeaderKey(kv[0])] = append(h[http.CanonicalHeaderKey(kv[0])], kv[1])
 	}
-	return &http.Request{
+	req := &http.Request{
 		Method: r.Method, URL: &url.URL{Path: r.Path}, Host: r.Host, Header: h,
 		Proto: "HTTP/1.1", ProtoMajor: 1, ProtoMinor: 1, Body: http.NoBody, RemoteAddr: r.Remote,
 		RequestURI: r.Path,
 	}
+	if r.BodyLen > 0 {
+		req.Body = io.NopCloser(strings.NewReader(strings.Repeat("b", r.BodyLen)))
+		req.ContentLength = int64(r.BodyLen)
+	}
+	return req
 }
 
 type vfObserved struct {
@@ -692,6 +710,7 @@ type vfObserved struct {
 	Path    string
 	Host    string
 	Calls   int64
+	BodyLen string // body length the handler saw
 }
 
 func (o vfObserved) key() string { return fmt.Sprintf("%d|%s|%s", o.Status, o.Backend, o.Path) }
@@ -703,7 +722,7 @@ func vfServe(m *mux, mapper *vfMapper, r vfReq) vfObserved {
 	m.ServeHTTP(w, r.std())
 	p, _ := url.QueryUnescape(w.Header().Get("X-Vf-Path"))
 	return vfObserved{Status: w.Code, Backend: w.Header().Get("X-Vf-Backend"), Path: p,
-		Host: w.Header().Get("X-Vf-Host"), Calls: atomic.LoadInt64(&mapper.calls) - before}
+		Host: w.Header().Get("X-Vf-Host"), Calls: atomic.LoadInt64(&mapper.calls) - before, BodyLen: w.Header().Get("X-Vf-Bodylen")}
 }
 
 // vfClientIP is what the statement calls "the client IP" for the one-unambiguous-source requests
